@@ -22,8 +22,8 @@ ASSUMPTIONS = [
     'lifecycle hooks do not raise (C03 covers those)',
 ]
 BUDGET = {
-    'quick': {'enum': ['k1', 'k2', 'self2', 'listener', 'wc1', 'wc2', 'reload', 'tasks', 'interruptible'], 'hyp': 6000, 'shards': 8},
-    'thorough': {'enum': ['k1', 'k2', 'k3', 'k4w', 'self3', 'listener', 'listener2', 'wc1', 'wc2', 'reload', 'tasks', 'interruptible'], 'hyp': 200000, 'shards': 16},
+    'quick': {'enum': ['k1', 'k2', 'self2', 'listener', 'wc1', 'wc2', 'reload', 'tasks', 'interruptible', 'ownloop'], 'hyp': 6000, 'shards': 8},
+    'thorough': {'enum': ['k1', 'k2', 'k3', 'k4w', 'self3', 'listener', 'listener2', 'wc1', 'wc2', 'reload', 'tasks', 'interruptible', 'ownloop'], 'hyp': 200000, 'shards': 16},
 }
 
 ALPHABET = [['pause', 'p'], ['play'], ['kill', 'kt'], ['resume', 1], ['cancel']]
@@ -42,6 +42,15 @@ def enumerate_cases(tier, scope):
                 yield {'program': cat[name], 'schedule': sched, 'tag': f'{scope}:{name}'}
                 if k == 1:
                     yield {'program': cat[name], 'schedule': sched, 'cleanup_raises': 1, 'tag': f'{scope}:{name}:cleanup-raises'}
+    elif scope == 'ownloop':
+        # the process has a loop of its own (given through loop=; the thread's default loop is another one that never
+        # runs), is constructed and controlled from synchronous code while no loop is running
+        for name in ('wait1', 'gated', 'async2', 'waitwait'):
+            for k in (1, 2):
+                for sched in gen.schedules(ALPHABET, k, 2):
+                    if not any(ev[0] in ('kill', 'cancel') for ev in sched):
+                        continue
+                    yield {'program': cat[name], 'schedule': sched, 'decoy_loop': True, 'tag': f'ownloop:{name}'}
     elif scope == 'reload':
         # control requests (in particular cancelling the future) on an instance loaded from a checkpoint
         for name in ('wait1', 'waitwait', 'gated', 'missing_out'):
@@ -182,6 +191,8 @@ def execute(case):
 
         views = ex.views()
         final = views['state']
+        if views.get('decoy_scheduled') or views.get('future_loop_is_own') is False:
+            v('left-its-loop', f"{views.get('decoy_scheduled')} callback(s) were scheduled on the thread's default loop / the outcome future lives on the process's loop: {views.get('future_loop_is_own')}")
         texts = set()
         for r in live_kills:
             texts.add(CANCEL_TEXT if r['what'] == 'cancel' else (r['arg'] or ''))
